@@ -219,11 +219,11 @@ def register(reg):
         lid = lock_id(eng.heap_read(st, s, "TUN._connect_lock"))
         if lid in st.held:
             for k, sort in (("TUN._connection", IntS), ("TUN._connected", BoolS)):
-                o = old.get(k, eng.initial_array(k, sort))
+                o = eng.old_arr(old, k, sort)
                 eng.assume(st, z3.Select(eng.heap_arr(st, k, sort), s.t) == z3.Select(o, s.t))
         else:
-            o = old.get("TUN._connected", eng.initial_array("TUN._connected", BoolS))
-            oc = old.get("TUN._connection", eng.initial_array("TUN._connection", IntS))
+            o = eng.old_arr(old, "TUN._connected", BoolS)
+            oc = eng.old_arr(old, "TUN._connection", IntS)
             # once connected, the inner connection is never replaced again
             eng.assume(st, z3.Implies(z3.Select(o, s.t), z3.And(z3.Select(eng.heap_arr(st, "TUN._connected", BoolS), s.t), z3.Select(eng.heap_arr(st, "TUN._connection", IntS), s.t) == z3.Select(oc, s.t))))
 
@@ -272,6 +272,7 @@ def register(reg):
     @reg.contract
     class TunHandle(Contract):
         key = TUN + ".handle_async_request"
+        callsite_events = {'H11.__init__', 'H2.__init__', 'net.start_tls', 'Request.__init__', 'ci.aclose', 'ci.handle_request'}
         props = ("C11", "C10", "C16", "C05", "C06", "C15", "C17", "C14", "C08")
         raises = CONN_RAISES + ["Cancelled"]
         raises_props = ("C15",)
